@@ -8,6 +8,12 @@ use std::collections::BTreeMap;
 use symcore::*;
 use util::*;
 
+/// a replay confirms a candidate when it fails the same obligation, or an obligation of the same group (`group :: detail`)
+fn label_matches(failed: &str, cand: &str) -> bool {
+    if failed == cand { return true; }
+    match (failed.split_once(" :: "), cand.split_once(" :: ")) { (Some((a, _)), Some((b, _))) => a == b, _ => false }
+}
+
 fn config(tier: &str, seed: u64) -> Config {
     let mut c = Config::default();
     c.seed = seed;
@@ -54,7 +60,7 @@ fn main() {
                     // bit-precise model from the QF_FP query: replay in f64 semantics; if this very input
                     // recovers, search the neighbourhood for an input on which the failure manifests end to end
                     let cf = run_concrete(cfg.clone(), true, &c.model, &mut body);
-                    confirmed = cf.failures.iter().any(|l| *l == c.label);
+                    confirmed = cf.failures.iter().any(|l| label_matches(l, &c.label));
                     mode = "f64";
                     errs = cf.errors.clone();
                     other = cf.failures.clone();
@@ -74,18 +80,18 @@ fn main() {
                                 m.insert(n.clone(), format!("bits:{:016x}", x.to_bits()));
                             }
                             let ct = run_concrete(cfg.clone(), true, &m, &mut body);
-                            if ct.failures.iter().any(|l| *l == c.label) { confirmed = true; model_used = m; mode = "f64 (found by search around the solver model)"; break; }
+                            if ct.failures.iter().any(|l| label_matches(l, &c.label)) { confirmed = true; model_used = m; mode = "f64 (found by search around the solver model)"; break; }
                         }
                     }
                 } else {
                 let cr = run_concrete(cfg.clone(), false, &c.model, &mut body);
-                confirmed = cr.failures.iter().any(|l| *l == c.label);
+                confirmed = cr.failures.iter().any(|l| label_matches(l, &c.label));
                 mode = "exact-rational";
                 errs = cr.errors.clone();
                 other = cr.failures.clone();
                 if !confirmed {
                     let cf = run_concrete(cfg.clone(), true, &c.model, &mut body);
-                    if cf.failures.iter().any(|l| *l == c.label) { confirmed = true; mode = "f64"; }
+                    if cf.failures.iter().any(|l| label_matches(l, &c.label)) { confirmed = true; mode = "f64"; }
                     errs.extend(cf.errors);
                     other.extend(cf.failures);
                 }
@@ -109,7 +115,7 @@ fn main() {
                         }
                         for float in [false, true] {
                             let ct = run_concrete(cfg.clone(), float, &m, &mut body);
-                            if ct.failures.iter().any(|l| *l == c.label) { confirmed = true; model_used = m.clone(); mode = if float { "f64 (input found by search after an unreproduced solver model)" } else { "exact-rational (input found by search after an unreproduced solver model)" }; break; }
+                            if ct.failures.iter().any(|l| label_matches(l, &c.label)) { confirmed = true; model_used = m.clone(); mode = if float { "f64 (input found by search after an unreproduced solver model)" } else { "exact-rational (input found by search after an unreproduced solver model)" }; break; }
                         }
                         if confirmed { break; }
                     }
@@ -137,7 +143,7 @@ fn main() {
                         for n in &rep.var_names { let k = (next() >> 40) % 33; m.insert(n.clone(), format!("{}", lo + (hi - lo) * (k as f64) / 32.0)); }
                         for float in [false, true] {
                             let ct = run_concrete(cfg.clone(), float, &m, &mut body);
-                            for l in &labels { if !found.contains_key(l) && ct.failures.iter().any(|f| f == l) { found.insert(l.clone(), (m.clone(), if float { "f64 (input found by search for an undecided obligation)" } else { "exact-rational (input found by search for an undecided obligation)" })); } }
+                            for l in &labels { if !found.contains_key(l) && ct.failures.iter().any(|f| label_matches(f, l)) { found.insert(l.clone(), (m.clone(), if float { "f64 (input found by search for an undecided obligation)" } else { "exact-rational (input found by search for an undecided obligation)" })); } }
                         }
                         if found.len() == labels.len() { break; }
                     }
